@@ -101,12 +101,32 @@ def check_split(ctx, rule):
                       'cluster form is taken under %s' % {k: facts.get(k) for k in need})
     f_ssd = repo.func('arguments._starts_with_single_dash')
 
-    def m_ssd(a):
-        return {"s.startswith('-')": ('dash', True), '1 < len(s)': ('long', True), "'-' == s[1]": ('second', True), "s[1] == '-'": ('second', True)}.get(a.text)
-    probs = check_reach(paths_of(repo, f_ssd, bool_returns=True), lambda e: e.kind == 'return' and isinstance(e.value, ast.Constant) and e.value.value is True, m_ssd,
-                        lambda F: F['dash'] and F['long'] and not F['second'], universe=['dash', 'long', 'second'])
-    ctx.check(not probs, rule, 'split:single-dash-test', f_ssd.loc(), 'a single-dash option is: starts with -, longer than one character, second character is not -',
-              '_starts_with_single_dash returns %s in scenario %s' % ((probs[0][2], probs[0][1]) if probs else ('', '')))
+    # decided by folding the returned term on sample words (every shape of the first two characters, longer words included)
+    from ..peval import fold, Unfoldable
+    ssd_paths = paths_of(repo, f_ssd)
+    pname = f_ssd.params()[0]
+    bad = None
+    nssd = 0
+    for sample in ('', '-', '--', '-a', '--a', 'a', 'a-', '-ab', '---', '-a-', '-C', '--help', 'x-y'):
+        want = sample.startswith('-') and len(sample) > 1 and sample[1] != '-'
+        ps_ = paths_for_input(ssd_paths, {pname: sample})
+        if not ps_:
+            bad = bad or (sample, 'no path')
+        for p in ps_:
+            nssd += 1
+            if p.outcome[0] != 'return':
+                bad = bad or (sample, p.outcome[0])
+                continue
+            try:
+                got = fold(p.outcome[1], {pname: sample})
+            except Unfoldable as ex:
+                bad = bad or (sample, 'cannot be evaluated: %s' % ex)
+                continue
+            if isinstance(got, tuple) or bool(got) != want:
+                bad = bad or (sample, got)
+    ctx.check(bad is None, rule, 'split:single-dash-test', f_ssd.loc(), 'a single-dash option is: starts with -, longer than one character, second character is not -',
+              '_starts_with_single_dash(%r) gives %r' % (bad if bad else ('', '')))
+    ctx.floor(rule, nssd, 13, 'sample evaluations of _starts_with_single_dash')
     f_sd = repo.func('arguments._strip_dashes')
     nsd = 0
     sd_paths = paths_of(repo, f_sd, while_unroll=2)
@@ -231,6 +251,7 @@ def run(ctx):
         from ..sim import concat_parts, deep_ast
         parts = concat_parts(deep_ast(v.left.elts[2]))
         njoin = 0
+        whole = False
         for x in parts:
             if isinstance(x, ast.Constant):
                 continue
@@ -243,12 +264,20 @@ def run(ctx):
                 ctx.check(ok and not g.generators[0].ifs and isinstance(x.func.value, ast.Constant) and x.func.value.value.strip() == ',', 'C19.6', 'requote:words', loc,
                           'each of our words is embedded through a total quoting function (%s)' % why, 'our words are re-quoted unsoundly for the instance inside GDB: %s' % why)
                 continue
+            if isinstance(x, ast.Call) and norm(x.func) == 'repr' and len(x.args) == 1 and not x.keywords \
+                    and norm(x.args[0]) in (pa + '.wayland_debug_args', 'list(%s.wayland_debug_args)' % pa):
+                # the list as a whole through repr(): a list display of quoted literals, brackets included
+                njoin += 1
+                whole = True
+                ctx.check(True, 'C19.6', 'requote:words', loc, 'our words are embedded as the repr() of the list of words (a total quoting of every word)')
+                continue
             ok = isinstance(x, ast.Call) and norm(x.func) in ('repr', 'json.dumps') and len(x.args) == 1
             ctx.check(ok, 'C19.6', 'requote:embedded:%s' % t[:40], loc, 'dynamic text %s enters the generated command through a total quoting function' % t[:40],
                       '%s is pasted unquoted into the generated python command: a program path containing a quote or backslash breaks it' % t[:60])
         ctx.check(njoin == 1, 'C19.6', 'requote:words-embedded', loc, 'our words are embedded once, as a comma-separated list of quoted literals', 'the generated command embeds our words %d times' % njoin)
         fixed = ''.join(x.value if isinstance(x, ast.Constant) else '\0' for x in parts)
-        ctx.check(re.match(r'^python import sys; sys\.argv = \[\0\]; exec\(open\(\0\)\.read\(\)\)$', fixed) is not None, 'C19.6', 'requote:frame', loc,
+        frame_re = r'^python import sys; sys\.argv = \0; exec\(open\(\0\)\.read\(\)\)$' if whole else r'^python import sys; sys\.argv = \[\0\]; exec\(open\(\0\)\.read\(\)\)$'
+        ctx.check(re.match(frame_re, fixed) is not None, 'C19.6', 'requote:frame', loc,
                   'the generated command sets sys.argv to our words and runs the same script', 'the generated command is %r' % fixed.replace('\0', '<..>'))
         scr = [x for x in parts if not isinstance(x, ast.Constant)][-1:] 
         ctx.check(bool(scr) and isinstance(scr[0], ast.Call) and scr[0].args and norm(scr[0].args[0]) == pa + '.wayland_debug_args[0]', 'C19.6', 'requote:script-path', loc,
@@ -305,60 +334,73 @@ def run(ctx):
     # ---- C19.5 -----------------------------------------------------------------------------------------------------
     f_sel = repo.func('arguments._select_mode')
     selp = paths_of(repo, f_sel, asserts='ignore')
-    nsel = 0
-    for p in selp:
-        k = sum(1 for e in p.events if e.kind == 'call' and e.ftext == 'modes.append')
-        if any(_eval_count(a.text, 'modes', k) not in (None, v) for a, v in p.decisions):
-            continue    # infeasible: the decision contradicts the number of modes collected on this path
-        if p.outcome[0] != 'return':
-            continue
-        nsel += 1
-        want = 'modes[0]' if k == 1 else 'None'
-        ctx.check(norm(p.outcome[1]) == want, 'C19.5', 'select_mode:%d-collected' % min(k, 2), f_sel.loc(), 'a mode is returned iff exactly one was requested',
-                  '%d modes requested -> %s' % (k, norm(p.outcome[1])))
-    ctx.floor('C19.5', nsel, 3, 'feasible paths of _select_mode')
-    # which request asks for which mode: a value option counts as given when it is not None (an empty value is still a request).
-    # The marker part (which of '', 'g', 'r' the split returned) is decided by folding, so an if-chain and a lookup table are the same.
+    # Decided against the documented request table, independently of how the function collects the requests (appends, a filtered
+    # comprehension, a count): for each marker the split can return ('' / 'g' / 'r', folded into the paths, so an if-chain and a lookup
+    # table are the same) and every combination of {inside GDB, load path given (not None: an empty value is still a request), pipe flag}
+    # a mode is returned iff exactly one request is made, and it is that request's mode.
+    import itertools
     from ..peval import fold, Unfoldable, module_resolver
+    from ..sim import deep_ast
     res_ = module_resolver(repo, f_sel.module)
 
     def m_mode(a):
         t = a.text
         if t == 'check_gdb()':
             return ('in_gdb', True)
-        if t == 'args.path is None':
+        if t in ('args.path is None', 'None is args.path'):
             return ('path', False)
         if t == 'args.pipe':
             return ('pipe', True)
         return None
-
-    def mode_of(e):
-        try:
-            v = fold(e.args[0], {'command_id': cur_marker[0]}, None, res_)
-        except Unfoldable:
-            return None
-        return v[1].split('.')[-1] if isinstance(v, tuple) and len(v) == 2 and v[0] == 'sym' else None
     MODES = {'GDB_RUNNER': 'g', 'RUN': 'r', 'GDB_PLUGIN': 'in_gdb', 'LOAD_FROM_FILE': 'path', 'PIPE': 'pipe'}
-    cur_marker = ['']
-    selp2 = [p for p in selp if not (p.outcome and p.outcome[0] == 'raise')]
+    WHY = {'g': 'the marker was -g', 'r': 'the marker was -r', 'in_gdb': 'we run inside GDB', 'path': 'a load path was given (not None)', 'pipe': 'the pipe flag is set'}
+    selp2 = [p for p in selp if not (p.outcome and p.outcome[0] == 'raise') and not p.truncated]
     nreq = 0
-    others = set()
+    nsel = 0
+    seen_modes = set()
     for marker in ('', 'g', 'r'):
-        cur_marker[0] = marker
         ps_ = paths_for_input(selp2, {'command_id': marker}, None, res_)
         nreq += len(ps_)
+        covered = set()
         for p in ps_:
-            for e in p.events:
-                if e.kind == 'call' and e.ftext == 'modes.append' and e.args and mode_of(e) not in MODES:
-                    others.add(norm(e.args[0]))
-        for mode, atom in sorted(MODES.items()):
-            probs = check_reach(ps_, lambda e, mode=mode: e.kind == 'call' and e.ftext == 'modes.append' and bool(e.args) and mode_of(e) == mode, m_mode,
-                                (lambda F, atom=atom, marker=marker: (marker == atom) if atom in ('g', 'r') else F[atom]), universe=['in_gdb', 'path', 'pipe'])
-            ctx.check(not probs, 'C19.5', 'select_mode:requested:%s' % mode, f_sel.loc(),
-                      'mode %s counts as requested exactly when %s' % (mode, {'g': 'the marker was -g', 'r': 'the marker was -r', 'in_gdb': 'we run inside GDB', 'path': 'a load path was given (not None)', 'pipe': 'the pipe flag is set'}[atom]),
-                      'with marker %r mode %s requested=%s in scenario %s: the mode count (exactly one) is taken over the wrong set of requests' % ((marker, mode, probs[0][2], probs[0][1]) if probs else (marker, mode, '', '')))
-    ctx.check(not others, 'C19.5', 'select_mode:known-modes', f_sel.loc(), 'only the five modes are ever requested', 'other requests: %s' % sorted(others))
+            facts = {}
+            clash = False
+            for a_, v_ in p.decisions:
+                m_ = m_mode(a_)
+                if m_ is not None:
+                    val = v_ if m_[1] else (not v_)
+                    clash = clash or facts.get(m_[0], val) != val
+                    facts[m_[0]] = val
+            if clash:
+                continue
+            rv = p.outcome[1] if p.outcome[0] == 'return' else None
+            gives = rv is not None and norm(rv) != 'None'
+            got_mode = None
+            if gives:
+                try:
+                    v = fold(deep_ast(rv), {'command_id': marker}, None, res_)
+                    got_mode = v[1].split('.')[-1] if isinstance(v, tuple) and len(v) == 2 and v[0] == 'sym' else repr(v)
+                except Unfoldable as ex:
+                    got_mode = 'not evaluable (%s)' % ex
+            missing = [u for u in ('in_gdb', 'path', 'pipe') if u not in facts]
+            for combo in itertools.product([True, False], repeat=len(missing)):
+                F = dict(facts)
+                F.update(zip(missing, combo))
+                covered.add((F['in_gdb'], F['path'], F['pipe']))
+                req = [m for m, atom in sorted(MODES.items()) if ((marker == atom) if atom in ('g', 'r') else F[atom])]
+                nsel += 1
+                ctx.check(gives == (len(req) == 1), 'C19.5', 'select_mode:%d-requested' % min(len(req), 2), f_sel.loc(), 'a mode is returned iff exactly one was requested',
+                          'with marker %r and %s the requests are %s but _select_mode returns %s' % (marker, F, req, norm(rv)[:60] if rv is not None else p.outcome[0]))
+                if gives and len(req) == 1:
+                    seen_modes.add(req[0])
+                    ctx.check(got_mode == req[0], 'C19.5', 'select_mode:requested:%s' % req[0], f_sel.loc(),
+                              'mode %s is selected exactly when %s and nothing else is requested' % (req[0], WHY[MODES[req[0]]]),
+                              'with marker %r and %s the only request is %s but the mode returned is %s' % (marker, F, req[0], got_mode))
+        ctx.check(len(covered) == 8, 'C19.5', 'select_mode:all-combinations:%s' % (marker or 'none'), f_sel.loc(), 'every combination of the three mode options is decided for this marker',
+                  'with marker %r only the combinations %s of (inside GDB, path, pipe) have a path' % (marker, sorted(covered)))
+    ctx.check(seen_modes == set(MODES), 'C19.5', 'select_mode:known-modes', f_sel.loc(), 'each of the five modes is selected by its own request', 'modes selected: %s' % sorted(seen_modes))
     ctx.floor('C19.5', nreq, 6, 'paths of _select_mode consistent with a marker')
+    ctx.floor('C19.5', nsel, 24, 'request combinations of _select_mode')
     pap = None
     nonec = [x for x in f_pa.body_nodes() if isinstance(x, ast.If) and norm(x.test) in ('mode is None', 'not mode', 'None is mode')]
     ok = False
